@@ -190,3 +190,75 @@ def make_doc(rng, chords=True, ties="notes", grace=True, meter_change=True, pick
     text.append("\t".join(["*-"] * nsp))
     meta = {"nspines": nsp, "split": split is not None, "same_part": same_part, "staffs": staffs, "pickup": has_pickup, "meter_change": change_at is not None, "nbars": nbars}
     return {"nspines": nsp, "lines": lines}, "\n".join(text) + "\n", meta
+
+
+def parse_text(text):
+    """Tokenise a **kern document (written by anyone) into the abstract lines KernStream reads; independent of partitura."""
+    import re
+    nul = {"kind": "null", "a": 0, "b": 0, "c": 0, "null": 1, "notes": []}
+    lines, nsp = [], None
+    for row in text.split("\n"):
+        if not row.strip() or row.startswith("!"):
+            continue
+        toks = row.split("\t")
+        if toks[0].startswith("**"):
+            nsp = len(toks)
+            continue
+        if any(t.startswith("*") for t in toks) and all(t.startswith("*") or t == "." for t in toks):
+            # (save_kern fills the other spines of an interpretation line with "." instead of "*": read as null interpretations)
+            toks = ["*" if t == "." else t for t in toks]
+            if toks[0] == "*-":
+                continue
+            if any(t in ("*^", "*v") for t in toks):
+                lines.append({"kind": "path", "number": "", "toks": [dict(nul, kind="split" if t == "*^" else "join" if t == "*v" else "null") for t in toks]})
+                continue
+            out = []
+            for t in toks:
+                m = re.match(r"^\*staff(\d+)$", t)
+                if m:
+                    out.append(dict(nul, kind="staff", a=int(m.group(1))))
+                    continue
+                m = re.match(r"^\*clef([GFC])(\d)$", t)
+                if m:
+                    out.append(dict(nul, kind="clef", a=SIGN_INT[m.group(1)], b=int(m.group(2))))
+                    continue
+                m = re.match(r"^\*M(\d+)/(\d+)$", t)
+                if m:
+                    out.append(dict(nul, kind="meter", a=int(m.group(1)), b=int(m.group(2))))
+                    continue
+                m = re.match(r"^\*k\[(.*)\]$", t)
+                if m:
+                    out.append(dict(nul, kind="key", a=m.group(1).count("#") - m.group(1).count("-")))
+                    continue
+                out.append(dict(nul))
+            lines.append({"kind": "interp", "number": "", "toks": out})
+            continue
+        if toks[0].startswith("="):
+            m = re.search(r"(\d+)", toks[0])
+            lines.append({"kind": "bar", "number": m.group(1) if m else "", "toks": [dict(nul) for _ in toks]})
+            continue
+        out = []
+        for t in toks:
+            if t == ".":
+                out.append(dict(nul))
+                continue
+            notes = []
+            for sub in t.split(" "):
+                m = re.match(r"^([^0-9a-gA-Gr]*)(\d+)(\.*)([^a-gA-Gr]*)([a-gA-G]+|r)([#\-n]*)(.*)$", sub)
+                if m is None:
+                    notes.append({"recip": 0, "dots": 0, "rest": 1, "step": "C", "alter": 0, "octave": 0, "tie": "", "grace": 0, "unparsed": sub})
+                    continue
+                marks = m.group(1) + m.group(4) + m.group(7)
+                tie = "_" if "_" in marks else "[" if "[" in marks else "]" if "]" in marks else ""
+                grace = 1 if ("q" in marks or "p" in marks) else 0
+                if m.group(5) == "r":
+                    notes.append({"recip": int(m.group(2)), "dots": len(m.group(3)), "rest": 1, "step": "C", "alter": 0, "octave": 0, "tie": "", "grace": 0})
+                    continue
+                letters = m.group(5)
+                octave = 3 + len(letters) if letters[0].islower() else 4 - len(letters)
+                acc = m.group(6)
+                notes.append({"recip": int(m.group(2)), "dots": len(m.group(3)), "rest": 0, "step": letters[0].upper(),
+                              "alter": acc.count("#") - acc.count("-"), "octave": octave, "tie": tie, "grace": grace})
+            out.append({"kind": "null", "a": 0, "b": 0, "c": 0, "null": 0, "notes": notes})
+        lines.append({"kind": "data", "number": "", "toks": out})
+    return {"nspines": nsp or 0, "lines": lines}
